@@ -50,7 +50,7 @@ func streamSpecAt(name string, n, max int, mixed bool, prefix string) *spec.Spec
 func c17(args []string) {
 	c := chk.New("C17", "exploration", args)
 	c.Build(false)
-	c.Rule("producer/consumer pairs connected by an {os:..} port: n in {1,2,4} (and 12, 24, 40 with the producers exiting last) streamed items with maxConcurrentTasks in 2n..2n+2 (the producer's regular output, when it has one, feeds a consumer of its own), payload sizes {0,1,4095,65536,65537,1 MiB} (below and above the pipe buffer), exit order forced both ways (producer or consumer lingers after closing its files), producers with only a streaming output and with an additional regular output, consumers with an ordinary in-port beside the streamed one, SCIPIPE_BUFSIZE and yield seeds varied; history 'complete run, then run again'; oracle: sha256 the consumer read through the FIFO == sha256 the producer wrote (both logged by the commands), consumer output == reference, at the instant Run returns no FIFO and no regular file at the stream path, consumer audit names the producer under Upstream[stream path], hang classification incl. FIFO-blocked children (wchan), re-run terminates and leaves inode/mtime/bytes of consumer outputs untouched. distinct_nontrivial = distinct (n, max, size, exit order, mixed, config) runs whose byte comparison was made")
+	c.Rule("producer/consumer pairs connected by an {os:..} port: n in {1,2,4} (and 12, 24, 40 with the producers exiting last) streamed items with maxConcurrentTasks in 2n..2n+2 (the producer's regular output, when it has one, feeds a consumer of its own), payload sizes {0,1,4095,65536,65537,1 MiB} (below and above the pipe buffer), exit order forced both ways (producer or consumer lingers after closing its files), producers with only a streaming output and with an additional regular output, producer and consumer taking different numbers of slots with maxConcurrentTasks exactly their sum, two producer processes streaming into one in-port of the consumer, consumers with an ordinary in-port beside the streamed one, SCIPIPE_BUFSIZE and yield seeds varied; history 'complete run, then run again'; oracle: sha256 the consumer read through the FIFO == sha256 the producer wrote (both logged by the commands), consumer output == reference, at the instant Run returns no FIFO and no regular file at the stream path, consumer audit names the producer under Upstream[stream path], hang classification incl. FIFO-blocked children (wchan), re-run terminates and leaves inode/mtime/bytes of consumer outputs untouched. distinct_nontrivial = distinct (n, max, size, exit order, mixed, config) runs whose byte comparison was made")
 	c.Assume("one consumer per streaming port; maxConcurrentTasks >= 2n (each producer and its consumer can run at the same time)")
 	rng := c.Rand("c17")
 	type job struct {
@@ -59,6 +59,8 @@ func c17(args []string) {
 		order        string // none | producer-last | consumer-last
 		mixed        bool
 		rerun        bool
+		pc, cc       int  // cores per task of the producer / the consumer (0: default)
+		fanin        bool // a second producer process streams into the same in-port of the consumer
 		cfg          Cfg
 	}
 	var jobs []*job
@@ -96,6 +98,23 @@ func c17(args []string) {
 			jobs = append(jobs, &job{aux: true, n: n, max: 2*n + 1, size: 4095, order: "producer-last", mixed: r%2 == 0, cfg: Cfg{Buf: []int{1, 128}[r%2], Procs: []int{2, 4}[r%2]}})
 		}
 	}
+	// the two ends of a FIFO take different numbers of slots; the workflow has exactly the sum (times n)
+	for k, cores := range [][2]int{{3, 1}, {1, 3}, {2, 1}, {4, 2}, {1, 2}, {5, 1}} {
+		if !c.Thorough() && k >= 4 {
+			break
+		}
+		for _, n := range []int{1, 2} {
+			jobs = append(jobs, &job{n: n, pc: cores[0], cc: cores[1], max: n*(cores[0]+cores[1]) + k%2, size: 4095, order: []string{"none", "producer-last", "consumer-last"}[(k+n)%3], mixed: false,
+				cfg: Cfg{Buf: []int{1, 128}[k%2], Procs: 4}})
+		}
+	}
+	// two producer processes stream into the same in-port of one consumer process (every streaming port still has one consumer)
+	for _, n := range []int{1, 2, 3} {
+		for r := 0; r < c.Pick(2, 5); r++ {
+			jobs = append(jobs, &job{n: n, fanin: true, max: 4*n + r%2, size: []int{1, 4095, 65537}[r%3], order: []string{"none", "producer-last", "consumer-last"}[(r+n)%3], mixed: r%2 == 1,
+				cfg: Cfg{Buf: []int{1, 3, 128}[rng.Intn(3)], Procs: []int{2, 4}[r%2], Sched: fmt.Sprintf("%d,300,500", rng.Intn(1<<30))}})
+		}
+	}
 	for _, n := range []int{1, 2} {
 		for _, mixed := range []bool{true, false} {
 			for r := 0; r < c.Pick(1, 4); r++ {
@@ -112,6 +131,22 @@ func c17(args []string) {
 			prefix = "st/"
 		}
 		s := streamSpecAt(fmt.Sprintf("st%d", i), j.n, j.max, j.mixed, prefix)
+		prods := []string{"PROD"}
+		if j.pc > 0 {
+			s.Proc("PROD").Cores, s.Proc("CONS").Cores = j.pc, j.cc
+		}
+		if j.fanin {
+			p2 := *s.Proc("PROD")
+			p2.Name = "PROD2"
+			p2.Cmd = strings.Replace(p2.Cmd, "id=PROD", "id=PROD2", 1)
+			p2.Outs = []*spec.Out{{Port: "out", Pattern: prefix + "{i:in|basename}.stream2"}}
+			s.Procs = append(s.Procs, &p2)
+			s.Conns = append(s.Conns, &spec.Conn{From: "src.out", To: "PROD2.in"}, &spec.Conn{From: "PROD2.out", To: "CONS.in"})
+			if j.mixed {
+				s.Conns = append(s.Conns, &spec.Conn{From: "PROD2.side", To: "SIDE.in"})
+			}
+			prods = append(prods, "PROD2")
+		}
 		if j.aux {
 			cons := s.Proc("CONS")
 			// both declaration orders: Go visits the entries of a small map mostly in insertion order (7 times in 8)
@@ -122,24 +157,27 @@ func c17(args []string) {
 			cons.Cmd = spec.BuildCmd("CONS", ports, []spec.PortDecl{{Name: "out"}}, nil, nil, nil)
 			s.Conns = append(s.Conns, &spec.Conn{From: "src.out", To: "CONS.aux"})
 		}
-		bh := vproto.Behaviours{"PROD": {"size": fmt.Sprint(j.size)}}
-		switch j.order {
-		case "producer-last":
-			bh["PROD"]["post"] = "150"
-			if j.aux {
-				bh["PROD"]["post"] = "700" // the producer must still be running when the consumer is long done, also on a loaded machine
+		bh := vproto.Behaviours{}
+		for _, pn := range prods {
+			bh[pn] = map[string]string{"size": fmt.Sprint(j.size)}
+			if j.order == "producer-last" {
+				bh[pn]["post"] = "150"
+				if j.aux {
+					bh[pn]["post"] = "700" // the producer must still be running when the consumer is long done, also on a loaded machine
+				}
 			}
-		case "consumer-last":
-			bh["CONS"] = map[string]string{"post": "150"}
+			if j.size > 70000 {
+				bh[pn]["pause"] = "20"
+			}
 		}
-		if j.size > 70000 {
-			bh["PROD"]["pause"] = "20"
+		if j.order == "consumer-last" {
+			bh["CONS"] = map[string]string{"post": "150"}
 		}
 		exp := ref.Eval(&ref.Input{Spec: s, Files: sourcesOf(s), Behav: bh})
 		if exp.Err != "" {
 			c.Broken("reference cannot evaluate the streaming workflow: " + exp.Err)
 		}
-		desc := map[string]interface{}{"stream_path_prefix": prefix, "n": j.n, "max": j.max, "payload_size": j.size, "exit_order": j.order, "producer_has_regular_output": j.mixed, "cfg": j.cfg, "spec": s, "behav": bh}
+		desc := map[string]interface{}{"stream_path_prefix": prefix, "n": j.n, "max": j.max, "payload_size": j.size, "exit_order": j.order, "producer_has_regular_output": j.mixed, "producer_cores": j.pc, "consumer_cores": j.cc, "two_producers_one_in_port": j.fanin, "cfg": j.cfg, "spec": s, "behav": bh}
 		cfg1 := j.cfg
 		cfg1.SoftSec = 0
 		res := execSpec(c, root, s, cfg1, bh, false, 0)
@@ -178,9 +216,11 @@ func c17(args []string) {
 				if l.Mode == "p" || strings.HasSuffix(l.Path, ".fifo") {
 					ps = append(ps, mon.Problem{Sig: "fifo-left", Msg: "FIFO " + l.Path + " exists when Run returns"})
 				}
-				for _, pt := range exp.ByProc["PROD"] {
-					if l.Path == filepath.Clean(pt.Outs["out"]) {
-						ps = append(ps, mon.Problem{Sig: "regular-file-at-stream-path", Msg: l.Path + " exists (mode " + l.Mode + ") when Run returns"})
+				for _, pn := range prods {
+					for _, pt := range exp.ByProc[pn] {
+						if l.Path == filepath.Clean(pt.Outs["out"]) {
+							ps = append(ps, mon.Problem{Sig: "regular-file-at-stream-path", Msg: l.Path + " exists (mode " + l.Mode + ") when Run returns"})
+						}
 					}
 				}
 			}
@@ -194,7 +234,7 @@ func c17(args []string) {
 				up := a.Upstream[ct.In["in"].Path]
 				if up == nil {
 					ps = append(ps, mon.Problem{Sig: "consumer-audit-lacks-stream-key", Msg: fmt.Sprintf("audit of %s has Upstream keys %v, expected %s", ct.Outs["out"], keysOfAudit(a), ct.In["in"].Path)})
-				} else if up.ProcessName != "PROD" || up.Command == "" {
+				} else if up.ProcessName != ct.In["in"].Producer.Proc || up.Command == "" {
 					// Logical criterion from the hook event log (one global order): if the producer task had
 					// written its audit info before the consumer's command was done, the consumer must see it.
 					sig := "consumer-audit-does-not-name-producer"
@@ -236,14 +276,14 @@ func c17(args []string) {
 				return
 			}
 			// only the known audit finding: the byte comparison, listing and exactly-once oracles all held
-			c.Count("streamed_items_compared", j.n)
-			c.Nontrivial(fmt.Sprintf("%d|%d|%d|%s|%v|%v", j.n, j.max, j.size, j.order, j.mixed, j.cfg))
+			c.Count("streamed_items_compared", j.n*len(prods))
+			c.Nontrivial(fmt.Sprintf("%d|%d|%d|%s|%v|%d|%d|%v|%v", j.n, j.max, j.size, j.order, j.mixed, j.pc, j.cc, j.fanin, j.cfg))
 			if !j.rerun {
 				return
 			}
 		} else {
-			c.Count("streamed_items_compared", j.n)
-			c.Nontrivial(fmt.Sprintf("%d|%d|%d|%s|%v|%v", j.n, j.max, j.size, j.order, j.mixed, j.cfg))
+			c.Count("streamed_items_compared", j.n*len(prods))
+			c.Nontrivial(fmt.Sprintf("%d|%d|%d|%s|%v|%d|%d|%v|%v", j.n, j.max, j.size, j.order, j.mixed, j.pc, j.cc, j.fanin, j.cfg))
 		}
 		if !j.rerun {
 			if i%9 == 0 {
